@@ -436,6 +436,35 @@ var checkKDE = ev.Register("kde", func(c *Case) ev.Outcome {
 			return ev.Fail("Bounds = %v,%v hold only %.6g of the mass", bl, bh, inside)
 		}
 	}
+	if c.Kernel == kDelta && !deltaTouching {
+		// Bounds of a step distribution: the mass of the closed interval is the weight of the
+		// sample values in it (the images of the reflection lie outside the support)
+		bl, bh := k.Bounds()
+		if math.IsNaN(bl) || math.IsNaN(bh) || math.IsInf(bl, 0) || math.IsInf(bh, 0) || !(bl <= bh) {
+			return ev.Fail("Bounds = %v,%v", bl, bh)
+		}
+		if bl < a || bh > b {
+			return ev.Fail("Bounds = %v,%v leave the boundaries [%v,%v]", bl, bh, a, b)
+		}
+		in, tot := 0.0, 0.0
+		for i, x := range c.Xs {
+			w := 1.0
+			if c.W != nil {
+				w = c.W[i]
+			}
+			tot += w
+			if x >= bl && x <= bh {
+				in += w
+			}
+		}
+		if !(in >= 0.98*tot) {
+			return ev.Fail("Bounds = %.17g,%.17g hold only %.6g of the mass (delta kernel: weight of the sample values inside)", bl, bh, in/tot)
+		}
+		classes = append(classes, "delta-bounds-checked")
+		if mn == mx {
+			classes = append(classes, "delta-bounds-single-atom")
+		}
+	}
 	distinct := mn != mx
 	out := ev.OK(n >= 2 && distinct && (c.Cfg != 0 || c.W != nil), classes...)
 	if knownHit {
